@@ -201,6 +201,188 @@ impl Model for ChainModel {
     fn properties(&self) -> Vec<Property<Self>> { vec![Property::always("real chained builders equal the model and apply steps in call order", |_, s| !matches!(s, St::Bad { .. }))] }
 }
 
+// =====================================================================================================
+// audit round: builders and helpers on GENERAL (non-affine, singular, unit, zero) matrices, operand forms,
+// opaque-symbol routing of the constructors, long chains, wider Transform alphabets
+// =====================================================================================================
+
+/// one builder call with exact parameters (translations / scalings / shears carry their vector, rotations an angle token)
+#[derive(Clone, Copy, Debug, PartialEq)]
+enum Op { T2([X; 2]), T3([X; 3]), S3([X; 3]), S2([X; 2]), ShX(X), ShY(X), RX(u8, i8), RY(u8, i8), RZ(u8, i8), R3(u8, i8) }
+fn op_fn(op: Op) -> &'static str {
+    match op { Op::T2(_) => "translated_2d", Op::T3(_) => "translated_3d", Op::S3(_) => "scaled_3d", Op::S2(_) => "scaled_2d", Op::ShX(_) => "sheared_x", Op::ShY(_) => "sheared_y",
+        Op::RX(..) => "rotated_x", Op::RY(..) => "rotated_y", Op::RZ(..) => "rotated_z", Op::R3(..) => "rotated_3d" }
+}
+fn op_is_degenerate(op: Op) -> bool {
+    let z = qi(0);
+    match op { Op::T2(v) => v.iter().all(|x| *x == z), Op::T3(v) => v.iter().all(|x| *x == z), Op::S3(v) => v.iter().any(|x| *x == z), Op::S2(v) => v.iter().any(|x| *x == z), Op::ShX(k) | Op::ShY(k) => k == z, _ => false }
+}
+/// textbook matrices of one builder call (written out entry by entry; rotations from the step semantics above)
+fn ref4(op: Op) -> A<X, 4> {
+    let mut m = ident::<X, 4>();
+    match op {
+        Op::T2(v) => { m[0][3] = v[0]; m[1][3] = v[1]; }
+        Op::T3(v) => { for i in 0..3 { m[i][3] = v[i]; } }
+        Op::S3(v) => { for i in 0..3 { m[i][i] = v[i]; } }
+        Op::RX(b, k) => m = mat4_of(Step::RX(b, k)), Op::RY(b, k) => m = mat4_of(Step::RY(b, k)), Op::RZ(b, k) => m = mat4_of(Step::RZ(b, k)), Op::R3(b, k) => m = mat4_of(Step::R3(b, k)),
+        _ => unreachable!(),
+    }
+    m
+}
+fn ref3(op: Op) -> A<X, 3> {
+    let mut m = ident::<X, 3>();
+    match op {
+        Op::T2(v) => { m[0][2] = v[0]; m[1][2] = v[1]; }
+        Op::S3(v) => { for i in 0..3 { m[i][i] = v[i]; } }
+        Op::RX(b, k) => m = mat3_of(Step::RX(b, k)), Op::RY(b, k) => m = mat3_of(Step::RY(b, k)), Op::RZ(b, k) => m = mat3_of(Step::RZ(b, k)), Op::R3(b, k) => m = mat3_of(Step::R3(b, k)),
+        _ => unreachable!(),
+    }
+    m
+}
+fn ref2(op: Op) -> A<X, 2> {
+    match op {
+        Op::S2(v) => [[v[0], qi(0)], [qi(0), v[1]]],
+        Op::ShX(k) => [[qi(1), k], [qi(0), qi(1)]],
+        Op::ShY(k) => [[qi(1), qi(0)], [k, qi(1)]],
+        Op::RZ(b, k) => mat2_of(Step::RZ(b, k)),
+        _ => unreachable!(),
+    }
+}
+/// (returning form, in-place twin applied to a copy of the same prior state, REAL constructor * REAL prior state)
+macro_rules! real_op4 { ($m:expr, $op:expr, $L:ident) => {{
+    let m: $L::Mat4<X> = $m; let _ = bases();
+    match $op {
+        Op::T2(v) => { let v = Vec2 { x: v[0], y: v[1] }; let mut t = m; t.translate_2d(v); (m.translated_2d(v), t, $L::Mat4::<X>::translation_2d(v) * m) }
+        Op::T3(v) => { let v = Vec3 { x: v[0], y: v[1], z: v[2] }; let mut t = m; t.translate_3d(v); (m.translated_3d(v), t, $L::Mat4::<X>::translation_3d(v) * m) }
+        Op::S3(v) => { let v = Vec3 { x: v[0], y: v[1], z: v[2] }; let mut t = m; t.scale_3d(v); (m.scaled_3d(v), t, $L::Mat4::<X>::scaling_3d(v) * m) }
+        Op::RX(b, k) => { let a = tok(b, k); let mut t = m; t.rotate_x(a); (m.rotated_x(a), t, $L::Mat4::<X>::rotation_x(a) * m) }
+        Op::RY(b, k) => { let a = tok(b, k); let mut t = m; t.rotate_y(a); (m.rotated_y(a), t, $L::Mat4::<X>::rotation_y(a) * m) }
+        Op::RZ(b, k) => { let a = tok(b, k); let mut t = m; t.rotate_z(a); (m.rotated_z(a), t, $L::Mat4::<X>::rotation_z(a) * m) }
+        Op::R3(b, k) => { let a = tok(b, k); let ax = Vec3 { x: xi(AXIS[0] as i64), y: xi(AXIS[1] as i64), z: xi(AXIS[2] as i64) }; let mut t = m; t.rotate_3d(a, ax); (m.rotated_3d(a, ax), t, $L::Mat4::<X>::rotation_3d(a, ax) * m) }
+        _ => unreachable!(),
+    }
+}} }
+macro_rules! real_op3 { ($m:expr, $op:expr, $L:ident) => {{
+    let m: $L::Mat3<X> = $m; let _ = bases();
+    match $op {
+        Op::T2(v) => { let v = Vec2 { x: v[0], y: v[1] }; let mut t = m; t.translate_2d(v); (m.translated_2d(v), t, $L::Mat3::<X>::translation_2d(v) * m) }
+        Op::S3(v) => { let v = Vec3 { x: v[0], y: v[1], z: v[2] }; let mut t = m; t.scale_3d(v); (m.scaled_3d(v), t, $L::Mat3::<X>::scaling_3d(v) * m) }
+        Op::RX(b, k) => { let a = tok(b, k); let mut t = m; t.rotate_x(a); (m.rotated_x(a), t, $L::Mat3::<X>::rotation_x(a) * m) }
+        Op::RY(b, k) => { let a = tok(b, k); let mut t = m; t.rotate_y(a); (m.rotated_y(a), t, $L::Mat3::<X>::rotation_y(a) * m) }
+        Op::RZ(b, k) => { let a = tok(b, k); let mut t = m; t.rotate_z(a); (m.rotated_z(a), t, $L::Mat3::<X>::rotation_z(a) * m) }
+        Op::R3(b, k) => { let a = tok(b, k); let ax = Vec3 { x: xi(AXIS[0] as i64), y: xi(AXIS[1] as i64), z: xi(AXIS[2] as i64) }; let mut t = m; t.rotate_3d(a, ax); (m.rotated_3d(a, ax), t, $L::Mat3::<X>::rotation_3d(a, ax) * m) }
+        _ => unreachable!(),
+    }
+}} }
+macro_rules! real_op2 { ($m:expr, $op:expr, $L:ident) => {{
+    let m: $L::Mat2<X> = $m; let _ = bases();
+    match $op {
+        Op::S2(v) => { let v = Vec2 { x: v[0], y: v[1] }; let mut t = m; t.scale_2d(v); (m.scaled_2d(v), t, $L::Mat2::<X>::scaling_2d(v) * m) }
+        Op::ShX(k) => { let mut t = m; t.shear_x(k); (m.sheared_x(k), t, $L::Mat2::<X>::shearing_x(k) * m) }
+        Op::ShY(k) => { let mut t = m; t.shear_y(k); (m.sheared_y(k), t, $L::Mat2::<X>::shearing_y(k) * m) }
+        Op::RZ(b, k) => { let a = tok(b, k); let mut t = m; t.rotate_z(a); (m.rotated_z(a), t, $L::Mat2::<X>::rotation_z(a) * m) }
+        _ => unreachable!(),
+    }
+}} }
+
+const W1: &str = "helper-is-not-the-w=1-product";
+const W0: &str = "helper-is-not-the-w=0-product";
+const MV: &str = "matrix-times-vector-is-not-the-product";
+/// (helper name, violation class, decoded result, the homogeneous input vector the property prescribes);
+/// the result is compared with the leading components of  reference_matrix * input
+type HelperOut<const N: usize> = Vec<(&'static str, &'static str, Vec<X>, [X; N])>;
+/// probe = (x, y, z, junk): the junk last coordinate is handed to the wide operand forms and must be ignored
+macro_rules! helper4 { ($L:ident) => { |m: &$L::Mat4<X>, p: &[X; 4]| -> HelperOut<4> {
+    let m = *m;
+    let (a3, a4, a2) = (Vec3 { x: p[0], y: p[1], z: p[2] }, Vec4 { x: p[0], y: p[1], z: p[2], w: p[3] }, Vec2 { x: p[0], y: p[1] });
+    let (pt, dr) = ([p[0], p[1], p[2], qi(1)], [p[0], p[1], p[2], qi(0)]);
+    vec![("mul_point<Vec3>", W1, dv3(&m.mul_point(a3)).to_vec(), pt), ("mul_point<Vec4>", W1, dv4(&m.mul_point(a4)).to_vec(), pt),
+         ("mul_point<Vec2>", W1, dv2(&m.mul_point(a2)).to_vec(), [p[0], p[1], qi(0), qi(1)]),
+         ("mul_direction<Vec3>", W0, dv3(&m.mul_direction(a3)).to_vec(), dr), ("mul_direction<Vec4>", W0, dv4(&m.mul_direction(a4)).to_vec(), dr),
+         ("mul_direction<Vec2>", W0, dv2(&m.mul_direction(a2)).to_vec(), [p[0], p[1], qi(0), qi(0)])]
+} } }
+/// probe = (x, y, junk)
+macro_rules! helper3 { ($L:ident) => { |m: &$L::Mat3<X>, p: &[X; 3]| -> HelperOut<3> {
+    let m = *m;
+    let (a2, a3) = (Vec2 { x: p[0], y: p[1] }, Vec3 { x: p[0], y: p[1], z: p[2] });
+    let (pt, dr) = ([p[0], p[1], qi(1)], [p[0], p[1], qi(0)]);
+    vec![("mul_point_2d<Vec2>", W1, dv2(&m.mul_point_2d(a2)).to_vec(), pt), ("mul_point_2d<Vec3>", W1, dv3(&m.mul_point_2d(a3)).to_vec(), pt),
+         ("mul_direction_2d<Vec2>", W0, dv2(&m.mul_direction_2d(a2)).to_vec(), dr), ("mul_direction_2d<Vec3>", W0, dv3(&m.mul_direction_2d(a3)).to_vec(), dr),
+         ("mul<Vec3>", MV, dv3(&(m * a3)).to_vec(), *p)]
+} } }
+macro_rules! helper2 { ($L:ident) => { |m: &$L::Mat2<X>, p: &[X; 2]| -> HelperOut<2> {
+    vec![("mul<Vec2>", MV, dv2(&(*m * Vec2 { x: p[0], y: p[1] })).to_vec(), *p)]
+} } }
+
+struct Gen<'a, M, const N: usize> {
+    ty: String, ops: &'a [Op], refn: fn(Op) -> A<X, N>,
+    real: &'a dyn Fn(M, Op) -> (M, M, M), helper: &'a dyn Fn(&M, &[X; N]) -> HelperOut<N>,
+    probes: &'a [[X; N]], start: A<X, N>, start_weight: u64,
+}
+/// every call sequence over `ops` up to `maxlen`, starting from `g.start`: after every call the returning form is compared with
+/// (1) textbook constructor * reference prior state, (2) the REAL constructor * the REAL prior state, (3) the in-place twin run on a
+/// copy of the same (non-trivial) prior state; and the point/direction helpers on every reached matrix with the w=1 / w=0 products
+fn gen_dfs<const N: usize, M: Copy + PartialEq + std::fmt::Debug + MatIO<X, N>>(s: &Section, g: &Gen<M, N>, maxlen: usize, state: M, model: &A<X, N>, steps: &mut Vec<Op>, n: &mut u64) {
+    let wgt = g.start_weight + 1000 * steps.len() as u64;
+    let inp = |steps: &Vec<Op>| json!({"start": jmat(&g.start), "calls": jd(steps)});
+    for p in g.probes {
+        match catch(|| (g.helper)(&state, p)) {
+            Ok(list) => for (name, class, got, hom) in list {
+                *n += 1;
+                let want = mvec(model, &hom);
+                if got[..] != want[..got.len()] { s.violation_w(&format!("{}::{} on a general matrix", g.ty, name), class, json!({"matrix": jmat(model), "reached_by": inp(steps), "operand": jxs(p), "got": jxs(&got), "want": jxs(&want[..got.len()])}), wgt); }
+            },
+            Err(Caught::Unmodelled(w)) => s.unmodelled(w),
+            Err(Caught::Panic(m)) => s.violation_w(&format!("{} helpers on a general matrix", g.ty), "panic", json!({"reached_by": inp(steps), "operand": jxs(p), "panic": m}), wgt),
+        }
+    }
+    if steps.len() >= maxlen { return; }
+    for &op in g.ops {
+        let site = format!("{}::{} on a general matrix", g.ty, op_fn(op));
+        *n += 1;
+        match catch(|| (g.real)(state, op)) {
+            Ok((ret, inpl, ctm)) => {
+                let model2 = mmul(&(g.refn)(op), model);
+                steps.push(op);
+                let mut ok = true;
+                if ret.decode() != model2 { ok = false; s.violation_w(&site, "chained-builder-is-not-premultiplication-by-the-constructor", json!({"input": inp(steps), "got": jmat(&ret.decode()), "want": jmat(&model2)}), wgt); }
+                if ret != ctm { ok = false; s.violation_w(&site, "returning-form-differs-from-real-constructor-times-self", json!({"input": inp(steps), "returning": jmat(&ret.decode()), "constructor*self": jmat(&ctm.decode())}), wgt); }
+                if inpl != ret { ok = false; s.violation_w(&site, "in-place-form-differs-from-returning-form", json!({"input": inp(steps), "returning": jmat(&ret.decode()), "in_place": jmat(&inpl.decode())}), wgt); }
+                if ok { gen_dfs(s, g, maxlen, ret, &model2, steps, n); }
+                steps.pop();
+            }
+            Err(Caught::Unmodelled(w)) => s.unmodelled(w),
+            Err(Caught::Panic(m)) => s.violation_w(&site, "panic", json!({"input": inp(steps), "op": jd(&op), "panic": m}), wgt),
+        }
+    }
+}
+fn units<const N: usize>() -> Vec<A<X, N>> { let mut v = Vec::new(); for i in 0..N { for j in 0..N { let mut m = zeros::<X, N>(); m[i][j] = qi(1); v.push(m); } } v }
+fn gcd_us(a: usize, b: usize) -> usize { if b == 0 { a } else { gcd_us(b, a % b) } }
+
+const ORDER_CLASS: &str = "scales-after-rotating(T*S*R)-instead-of-before(T*R*S)";
+/// one Transform -> Mat4 conversion, both layouts, against position + R(scale . p); same sites/classes as the first Transform section
+fn transform_case(s: &Section, pos: &[X; 3], quat: Quaternion<X>, r3: &A<X, 3>, sc: &[X; 3], probes: &[[X; 3]], weight: u64, nontrivial: bool) {
+    let t = Transform { position: Vec3 { x: pos[0], y: pos[1], z: pos[2] }, orientation: quat, scale: Vec3 { x: sc[0], y: sc[1], z: sc[2] } };
+    let inp = || json!({"position": jxs(pos), "orientation(x,y,z,w)": jxs(&[quat.x, quat.y, quat.z, quat.w]), "scale": jxs(sc)});
+    for (lay, got) in [("row", s.call("from(Transform)", inp, || rm::Mat4::<X>::from(t).decode())), ("col", s.call("from(Transform)", inp, || cm::Mat4::<X>::from(t).decode()))] {
+        s.eval(nontrivial);
+        let Some(m) = got else { continue };
+        if m[3] != [qi(0), qi(0), qi(0), qi(1)] { s.violation_w(&format!("Mat4<{}>::from(Transform)", lay), "last-row-is-not-(0,0,0,1)", json!({"input": inp(), "got": jmat(&m)}), weight); continue; }
+        for p in probes {
+            let sp = [sc[0] * p[0], sc[1] * p[1], sc[2] * p[2]];
+            let rp = mvec(r3, &sp);
+            let want = [pos[0] + rp[0], pos[1] + rp[1], pos[2] + rp[2], qi(1)];
+            let g = mvec(&m, &[p[0], p[1], p[2], qi(1)]);
+            if g != want {
+                let rp2 = mvec(r3, p); let alt = [pos[0] + sc[0] * rp2[0], pos[1] + sc[1] * rp2[1], pos[2] + sc[2] * rp2[2], qi(1)];
+                let class = if g == alt { ORDER_CLASS } else { "not-position+orientation*(scale.p)" };
+                s.violation_w(&format!("Mat4<{}>::from(Transform)", lay), class, json!({"input": inp(), "p": jxs(p), "got": jxs(&g), "want": jxs(&want)}), weight);
+                if class == ORDER_CLASS { continue; } else { break; }
+            }
+        }
+    }
+}
+
 fn main() {
     let rep = Report::start("C07", "model_checking");
     let extra = if rep.thorough() { 2 } else { 1 };
@@ -312,5 +494,267 @@ fn main() {
         } }
         s.sample(json!({"position": [1, -2, 3], "orientation": "90 degrees about z", "scale": [2, 1, 1], "p": [1, 0, 0], "want": "position + R(scale.p) = (1,0,3)"}));
     });
+    // ------------------------------------------------------------------------------------------------
+    // audit round
+    // ------------------------------------------------------------------------------------------------
+    rep.section("constructors are pure routing of their parameters (opaque symbols; boundary values of primitive element types)",
+        "every translation/scaling/shear constructor of Mat4/Mat3/Mat2 (both layouts) run on OPAQUE symbols (no arithmetic exists on them; Zero and One are distinguished symbols) for all 2^3 zero/non-zero patterns of the parameters: every entry of the result is Zero, One or the parameter the textbook matrix has there. The constructors only require T: Zero + One, so by parametricity the only thing they can observe about a parameter is is_zero(), hence this decides the entries for every element type and every value; spot-confirmed bit for bit on f64 {NaN, -0.0, +-inf, subnormal, MIN_POSITIVE, MAX} and i32 {MIN, MAX, -1}; non-trivial: at least one non-zero parameter", true, true, |s| {
+        use vx::term::Sym;
+        s.require_classes(&["all-parameters-zero", "mixed-zero-pattern", "no-parameter-zero"]);
+        let (z, o) = (Sym(0), Sym(1));
+        for pat in 0..8u8 {
+            let p: Vec<Sym> = (0..3).map(|i| if pat >> i & 1 == 1 { Sym(0) } else { Sym(10 + i as u16) }).collect();
+            s.class(match pat { 7 => "all-parameters-zero", 0 => "no-parameter-zero", _ => "mixed-zero-pattern" });
+            let (v3s, v2s) = (Vec3 { x: p[0], y: p[1], z: p[2] }, Vec2 { x: p[0], y: p[1] });
+            macro_rules! chk { ($site:expr, $got:expr, $want:expr) => {{ s.eval(pat != 7); if let Some(g) = s.call($site, || json!({"params": jd(&p)}), || $got.decode()) { let w = $want; if g != w { s.violation_w($site, "constructor-entry-is-not-zero/one/parameter-as-defined", json!({"params": jd(&p), "got": jd(&g), "want": jd(&w)}), pat as u64); } } }} }
+            macro_rules! lay { ($L:ident, $lay:expr) => {{
+                chk!(&format!("Mat4<{}>::translation_3d <Sym>", $lay), $L::Mat4::<Sym>::translation_3d(v3s), [[o, z, z, p[0]], [z, o, z, p[1]], [z, z, o, p[2]], [z, z, z, o]]);
+                chk!(&format!("Mat4<{}>::translation_2d <Sym>", $lay), $L::Mat4::<Sym>::translation_2d(v2s), [[o, z, z, p[0]], [z, o, z, p[1]], [z, z, o, z], [z, z, z, o]]);
+                chk!(&format!("Mat4<{}>::scaling_3d <Sym>", $lay), $L::Mat4::<Sym>::scaling_3d(v3s), [[p[0], z, z, z], [z, p[1], z, z], [z, z, p[2], z], [z, z, z, o]]);
+                chk!(&format!("Mat3<{}>::translation_2d <Sym>", $lay), $L::Mat3::<Sym>::translation_2d(v2s), [[o, z, p[0]], [z, o, p[1]], [z, z, o]]);
+                chk!(&format!("Mat3<{}>::scaling_3d <Sym>", $lay), $L::Mat3::<Sym>::scaling_3d(v3s), [[p[0], z, z], [z, p[1], z], [z, z, p[2]]]);
+                chk!(&format!("Mat2<{}>::scaling_2d <Sym>", $lay), $L::Mat2::<Sym>::scaling_2d(v2s), [[p[0], z], [z, p[1]]]);
+                chk!(&format!("Mat2<{}>::shearing_x <Sym>", $lay), $L::Mat2::<Sym>::shearing_x(p[0]), [[o, p[0]], [z, o]]);
+                chk!(&format!("Mat2<{}>::shearing_y <Sym>", $lay), $L::Mat2::<Sym>::shearing_y(p[0]), [[o, z], [p[0], o]]);
+            }} }
+            lay!(rm, "row"); lay!(cm, "col");
+        }
+        // primitive element types: the parameters land bit for bit where the textbook matrix has them
+        let fs = [f64::NAN, -0.0, f64::INFINITY, f64::NEG_INFINITY, 5e-324, f64::MIN_POSITIVE, f64::MAX, -f64::MAX, 1.5];
+        let is = [i32::MIN, i32::MAX, -1, 0, 7];
+        for r in 0..fs.len() {
+            let f = [fs[r], fs[(r + 1) % fs.len()], fs[(r + 4) % fs.len()]];
+            let b = |m: Vec<Vec<f64>>| -> Vec<Vec<u64>> { m.iter().map(|r| r.iter().map(|x| x.to_bits()).collect()).collect() };
+            macro_rules! chkf { ($site:expr, $got:expr, $want:expr) => {{ s.eval(true); let g: Vec<Vec<f64>> = $got.decode().iter().map(|r| r.to_vec()).collect(); let w: Vec<Vec<f64>> = $want.iter().map(|r| r.to_vec()).collect(); if b(g.clone()) != b(w.clone()) { s.violation_w($site, "constructor-does-not-place-the-parameter-bits", json!({"params": jd(&f), "got": jd(&g), "want": jd(&w)}), r as u64); } }} }
+            macro_rules! layf { ($L:ident, $lay:expr) => {{
+                chkf!(&format!("Mat4<{}>::translation_3d <f64>", $lay), $L::Mat4::<f64>::translation_3d(Vec3 { x: f[0], y: f[1], z: f[2] }), [[1., 0., 0., f[0]], [0., 1., 0., f[1]], [0., 0., 1., f[2]], [0., 0., 0., 1.]]);
+                chkf!(&format!("Mat4<{}>::translation_2d <f64>", $lay), $L::Mat4::<f64>::translation_2d(Vec2 { x: f[0], y: f[1] }), [[1., 0., 0., f[0]], [0., 1., 0., f[1]], [0., 0., 1., 0.], [0., 0., 0., 1.]]);
+                chkf!(&format!("Mat4<{}>::scaling_3d <f64>", $lay), $L::Mat4::<f64>::scaling_3d(Vec3 { x: f[0], y: f[1], z: f[2] }), [[f[0], 0., 0., 0.], [0., f[1], 0., 0.], [0., 0., f[2], 0.], [0., 0., 0., 1.]]);
+                chkf!(&format!("Mat3<{}>::translation_2d <f64>", $lay), $L::Mat3::<f64>::translation_2d(Vec2 { x: f[0], y: f[1] }), [[1., 0., f[0]], [0., 1., f[1]], [0., 0., 1.]]);
+                chkf!(&format!("Mat3<{}>::scaling_3d <f64>", $lay), $L::Mat3::<f64>::scaling_3d(Vec3 { x: f[0], y: f[1], z: f[2] }), [[f[0], 0., 0.], [0., f[1], 0.], [0., 0., f[2]]]);
+                chkf!(&format!("Mat2<{}>::scaling_2d <f64>", $lay), $L::Mat2::<f64>::scaling_2d(Vec2 { x: f[0], y: f[1] }), [[f[0], 0.], [0., f[1]]]);
+                chkf!(&format!("Mat2<{}>::shearing_x <f64>", $lay), $L::Mat2::<f64>::shearing_x(f[0]), [[1., f[0]], [0., 1.]]);
+                chkf!(&format!("Mat2<{}>::shearing_y <f64>", $lay), $L::Mat2::<f64>::shearing_y(f[0]), [[1., 0.], [f[0], 1.]]);
+            }} }
+            layf!(rm, "row"); layf!(cm, "col");
+        }
+        for r in 0..is.len() {
+            let i = [is[r], is[(r + 1) % is.len()], is[(r + 2) % is.len()]];
+            macro_rules! chki { ($site:expr, $got:expr, $want:expr) => {{ s.eval(true); let g = $got.decode(); if g != $want { s.violation_w($site, "constructor-does-not-place-the-parameter-bits", json!({"params": jd(&i), "got": jd(&g)}), r as u64); } }} }
+            macro_rules! layi { ($L:ident, $lay:expr) => {{
+                chki!(&format!("Mat4<{}>::translation_3d <i32>", $lay), $L::Mat4::<i32>::translation_3d(Vec3 { x: i[0], y: i[1], z: i[2] }), [[1, 0, 0, i[0]], [0, 1, 0, i[1]], [0, 0, 1, i[2]], [0, 0, 0, 1]]);
+                chki!(&format!("Mat4<{}>::scaling_3d <i32>", $lay), $L::Mat4::<i32>::scaling_3d(Vec3 { x: i[0], y: i[1], z: i[2] }), [[i[0], 0, 0, 0], [0, i[1], 0, 0], [0, 0, i[2], 0], [0, 0, 0, 1]]);
+                chki!(&format!("Mat3<{}>::translation_2d <i32>", $lay), $L::Mat3::<i32>::translation_2d(Vec2 { x: i[0], y: i[1] }), [[1, 0, i[0]], [0, 1, i[1]], [0, 0, 1]]);
+                chki!(&format!("Mat2<{}>::shearing_x <i32>", $lay), $L::Mat2::<i32>::shearing_x(i[0]), [[1, i[0]], [0, 1]]);
+                chki!(&format!("Mat2<{}>::shearing_y <i32>", $lay), $L::Mat2::<i32>::shearing_y(i[0]), [[1, 0], [i[0], 1]]);
+            }} }
+            layi!(rm, "row"); layi!(cm, "col");
+        }
+        s.sample(json!({"call": "Mat4::<Sym>::translation_3d(Vec3 { s10, s0(Zero), s12 })", "want": "[[One,Zero,Zero,s10],[Zero,One,Zero,Zero],[Zero,Zero,One,s12],[Zero,Zero,Zero,One]]"}));
+    });
+
+    rep.section("builders and point/direction helpers on GENERAL matrices (projective, singular, unit, zero prior states)",
+        "prior states: Mat4 {dense with last row (1,-2,3,4), singular with row2 = row0 + row1 and last row (3,0,-1,2), the 16 unit matrices E_ij, zero}, Mat3 and Mat2 likewise (bottom row never (0,..,0,1)); calls: Mat4 {translated_2d x2, translated_3d x4 (zero, integer, with a zero lane, fractional), scaled_3d x4 (unit, with a zero lane, negative/fractional, all zero), rotated_x/y/z/3d}, Mat3 {translated_2d x3, scaled_3d x4, rotated_x/y/z/3d}, Mat2 {scaled_2d x3, sheared_x x3, sheared_y x3, rotated_z x2}; every call sequence up to length 2 (quick) / 4 (thorough) from the dense and singular states, every single call from the unit and zero states; both layouts. After every call: returning form = textbook constructor * reference prior state (independent oracle), = REAL constructor * REAL prior state (the statement read literally), = in-place twin run on a copy of the same non-trivial prior state. On every reached matrix: mul_point / mul_direction for operand types Vec3, Vec4 (junk w that must be ignored; all four result lanes compared) and Vec2, mul_point_2d / mul_direction_2d for Vec2 and Vec3 (junk z; all three lanes), M * v: equal to the leading lanes of reference matrix * (p,1) resp. (p,0); non-trivial: every transition and helper evaluation on a non-zero prior state", true, false, |s| {
+        s.require_classes(&["projective-start", "singular-start", "unit-start", "zero-start", "degenerate-parameter", "call-sequences"]);
+        let maxlen = if s.thorough() { 4 } else { 2 };
+        let h = |a: i128, b: i128| q(a, b);
+        let i = |a: i128| qi(a);
+        let ops4 = [Op::T2([i(3), i(-1)]), Op::T2([h(-1, 2), i(4)]), Op::T3([i(0), i(0), i(0)]), Op::T3([i(1), i(2), i(3)]), Op::T3([i(-2), i(0), i(5)]), Op::T3([h(1, 2), i(-7), h(1, 3)]),
+            Op::S3([i(1), i(1), i(1)]), Op::S3([i(0), i(1), i(-1)]), Op::S3([i(2), i(-3), h(1, 2)]), Op::S3([i(0), i(0), i(0)]), Op::RX(0, 1), Op::RY(1, 2), Op::RZ(0, -3), Op::R3(1, 1)];
+        let ops3 = [Op::T2([i(0), i(0)]), Op::T2([i(3), i(-1)]), Op::T2([h(-1, 2), i(4)]), Op::S3([i(1), i(1), i(1)]), Op::S3([i(0), i(1), i(-1)]), Op::S3([i(2), i(-3), h(1, 2)]), Op::S3([i(0), i(0), i(0)]), Op::RX(0, 1), Op::RY(1, 2), Op::RZ(0, -3), Op::R3(1, 1)];
+        let ops2 = [Op::S2([i(1), i(1)]), Op::S2([i(0), i(-2)]), Op::S2([i(3), h(1, 2)]), Op::ShX(i(0)), Op::ShX(i(2)), Op::ShX(h(-1, 2)), Op::ShY(i(0)), Op::ShY(i(-3)), Op::ShY(h(1, 3)), Op::RZ(0, 1), Op::RZ(1, -2)];
+        let dense4: A<X, 4> = [[i(2), i(-1), i(3), i(5)], [i(0), i(4), i(1), i(-2)], [i(7), i(1), i(-3), h(1, 2)], [i(1), i(-2), i(3), i(4)]];
+        let sing4: A<X, 4> = [[i(1), i(2), i(3), i(4)], [i(0), i(1), i(-1), i(2)], [i(1), i(3), i(2), i(6)], [i(3), i(0), i(-1), i(2)]];
+        let dense3: A<X, 3> = [[i(2), i(-1), i(3)], [i(0), i(4), i(1)], [i(7), h(1, 2), i(-3)]];
+        let sing3: A<X, 3> = [[i(1), i(2), i(3)], [i(0), i(1), i(-1)], [i(1), i(3), i(2)]];
+        let dense2: A<X, 2> = [[i(2), i(-1)], [i(3), i(5)]];
+        let sing2: A<X, 2> = [[i(1), i(2)], [i(-2), i(-4)]];
+        let probes4 = [[i(0), i(0), i(0), i(7)], [i(1), i(0), i(0), i(0)], [i(0), i(1), i(0), i(-1)], [i(0), i(0), i(1), i(1)], [i(2), i(-3), i(5), i(7)], [h(1, 2), i(7), i(-1), h(-2, 3)]];
+        let probes3 = [[i(0), i(0), i(7)], [i(1), i(0), i(0)], [i(0), i(1), i(-1)], [i(2), i(-3), i(5)], [h(1, 2), i(7), h(-2, 3)]];
+        let probes2 = [[i(0), i(0)], [i(1), i(0)], [i(0), i(1)], [i(2), i(-3)], [h(1, 2), i(7)]];
+        for op in ops4.iter().chain(&ops3).chain(&ops2) { if op_is_degenerate(*op) { s.class("degenerate-parameter"); } }
+        let mut n = 0u64; let mut nz = 0u64;
+        macro_rules! run { ($N:expr, $Mat:ident, $dense:expr, $sing:expr, $ops:expr, $probes:expr, $refn:ident, $real:ident, $helper:ident, $name:expr) => {{
+            let mut starts: Vec<(&'static str, A<X, $N>, usize)> = vec![("projective-start", $dense, maxlen), ("singular-start", $sing, maxlen), ("zero-start", zeros::<X, $N>(), 1)];
+            for u in units::<$N>() { starts.push(("unit-start", u, 1)); }
+            for (k, (cls, st, len)) in starts.iter().enumerate() {
+                s.class(cls); if *len >= 2 { s.class("call-sequences"); }
+                let before = n;
+                { let g = Gen::<rm::$Mat<X>, $N> { ty: format!("{}<row>", $name), ops: &$ops, refn: $refn, real: &|m, op| $real!(m, op, rm), helper: &$helper!(rm), probes: &$probes, start: *st, start_weight: k as u64 };
+                  gen_dfs(s, &g, *len, <rm::$Mat<X> as MatIO<X, $N>>::build(st), st, &mut Vec::new(), &mut n); }
+                { let g = Gen::<cm::$Mat<X>, $N> { ty: format!("{}<col>", $name), ops: &$ops, refn: $refn, real: &|m, op| $real!(m, op, cm), helper: &$helper!(cm), probes: &$probes, start: *st, start_weight: k as u64 };
+                  gen_dfs(s, &g, *len, <cm::$Mat<X> as MatIO<X, $N>>::build(st), st, &mut Vec::new(), &mut n); }
+                if *cls != "zero-start" { nz += n - before; }
+            }
+        }} }
+        run!(4, Mat4, dense4, sing4, ops4, probes4, ref4, real_op4, helper4, "Mat4");
+        run!(3, Mat3, dense3, sing3, ops3, probes3, ref3, real_op3, helper3, "Mat3");
+        run!(2, Mat2, dense2, sing2, ops2, probes2, ref2, real_op2, helper2, "Mat2");
+        s.evals(n, nz);
+        s.meta("sequences", json!({"max_length_from_dense_states": maxlen, "transitions_and_helper_evaluations": n}));
+        s.sample(json!({"start": "Mat4 with last row (1,-2,3,4)", "call": "translated_3d((1,2,3))", "law": "result = translation_3d((1,2,3)) * start: row i gains v_i * (last row), not just the last column"}));
+        s.sample(json!({"matrix": "Mat4 with last row (1,-2,3,4)", "call": "mul_point(Vec4 { 2,-3,5, w: 7 })", "law": "= M * (2,-3,5,1), all four lanes, no division by the resulting w"}));
+    });
+
+    rep.section("operand forms of the constructors and builders (V: Into<VecN>)",
+        "parameters {(1,2,3), (-2,0,5), (1/2,-7,1/3)}: translation_3d / scaling_3d (Mat4, Mat3) called with Vec4 (extra lane 9 ignored), tuple, array, Extent3, a bare scalar (broadcast) and - translation only - Vec2 (z = 0); translation_2d (Mat4, Mat3) and scaling_2d (Mat2) with Vec3 / Vec4 (extra lanes ignored), tuple, array, Extent2, scalar; translated_3d / translate_3d / scaled_3d / scale_3d / translated_2d / translate_2d / scaled_2d / scale_2d with tuple and Vec4 operands on a dense projective prior state; each compared with the textbook matrix of the vector the operand denotes (independent oracle); both layouts; non-trivial: all", true, false, |s| {
+        use vek::{Extent2, Extent3};
+        let i = |a: i128| qi(a);
+        let vs = [[i(1), i(2), i(3)], [i(-2), i(0), i(5)], [q(1, 2), i(-7), q(1, 3)]];
+        let dense4: A<X, 4> = [[i(2), i(-1), i(3), i(5)], [i(0), i(4), i(1), i(-2)], [i(7), i(1), i(-3), q(1, 2)], [i(1), i(-2), i(3), i(4)]];
+        let dense3: A<X, 3> = [[i(2), i(-1), i(3)], [i(0), i(4), i(1)], [i(7), q(1, 2), i(-3)]];
+        let dense2: A<X, 2> = [[i(2), i(-1)], [i(3), i(5)]];
+        for (vi, v) in vs.iter().enumerate() {
+            let (a, b, c, junk) = (v[0], v[1], v[2], i(9));
+            macro_rules! chk { ($site:expr, $form:expr, $got:expr, $want:expr) => {{
+                s.eval(true); let site = format!("{}<{}>", $site, $form);
+                if let Some(g) = s.call(&site, || json!({"v": jxs(v)}), || $got.decode()) { let w = $want; if g != w { s.violation_w(&site, "operand-form-is-not-the-vector-it-denotes", json!({"v": jxs(v), "got": jmat(&g), "want": jmat(&w)}), vi as u64); } }
+            }} }
+            macro_rules! lay { ($L:ident, $lay:expr, $b4:ident, $b3:ident, $b2:ident) => {{
+                let (t3, s3, t2) = (ref4(Op::T3(*v)), ref4(Op::S3(*v)), ref4(Op::T2([a, b])));
+                let site = format!("Mat4<{}>::translation_3d", $lay);
+                chk!(site, "Vec4", $L::Mat4::<X>::translation_3d(Vec4 { x: a, y: b, z: c, w: junk }), t3);
+                chk!(site, "tuple", $L::Mat4::<X>::translation_3d((a, b, c)), t3);
+                chk!(site, "array", $L::Mat4::<X>::translation_3d([a, b, c]), t3);
+                chk!(site, "Extent3", $L::Mat4::<X>::translation_3d(Extent3 { w: a, h: b, d: c }), t3);
+                chk!(site, "Vec2", $L::Mat4::<X>::translation_3d(Vec2 { x: a, y: b }), ref4(Op::T3([a, b, i(0)])));
+                chk!(site, "scalar", $L::Mat4::<X>::translation_3d(a), ref4(Op::T3([a, a, a])));
+                let site = format!("Mat4<{}>::scaling_3d", $lay);
+                chk!(site, "Vec4", $L::Mat4::<X>::scaling_3d(Vec4 { x: a, y: b, z: c, w: junk }), s3);
+                chk!(site, "tuple", $L::Mat4::<X>::scaling_3d((a, b, c)), s3);
+                chk!(site, "array", $L::Mat4::<X>::scaling_3d([a, b, c]), s3);
+                chk!(site, "Extent3", $L::Mat4::<X>::scaling_3d(Extent3 { w: a, h: b, d: c }), s3);
+                chk!(site, "scalar", $L::Mat4::<X>::scaling_3d(c), ref4(Op::S3([c, c, c])));
+                let site = format!("Mat4<{}>::translation_2d", $lay);
+                chk!(site, "Vec3", $L::Mat4::<X>::translation_2d(Vec3 { x: a, y: b, z: junk }), t2);
+                chk!(site, "Vec4", $L::Mat4::<X>::translation_2d(Vec4 { x: a, y: b, z: junk, w: junk }), t2);
+                chk!(site, "tuple", $L::Mat4::<X>::translation_2d((a, b)), t2);
+                chk!(site, "array", $L::Mat4::<X>::translation_2d([a, b]), t2);
+                chk!(site, "Extent2", $L::Mat4::<X>::translation_2d(Extent2 { w: a, h: b }), t2);
+                chk!(site, "scalar", $L::Mat4::<X>::translation_2d(b), ref4(Op::T2([b, b])));
+                let m4 = $b4(&dense4);
+                chk!(format!("Mat4<{}>::translated_3d", $lay), "tuple", m4.translated_3d((a, b, c)), mmul(&t3, &dense4));
+                chk!(format!("Mat4<{}>::translate_3d", $lay), "Vec4", { let mut t = m4; t.translate_3d(Vec4 { x: a, y: b, z: c, w: junk }); t }, mmul(&t3, &dense4));
+                chk!(format!("Mat4<{}>::scaled_3d", $lay), "Vec4", m4.scaled_3d(Vec4 { x: a, y: b, z: c, w: junk }), mmul(&s3, &dense4));
+                chk!(format!("Mat4<{}>::scale_3d", $lay), "scalar", { let mut t = m4; t.scale_3d(b); t }, mmul(&ref4(Op::S3([b, b, b])), &dense4));
+                chk!(format!("Mat4<{}>::translated_2d", $lay), "Vec3", m4.translated_2d(Vec3 { x: a, y: b, z: junk }), mmul(&t2, &dense4));
+                chk!(format!("Mat4<{}>::translate_2d", $lay), "tuple", { let mut t = m4; t.translate_2d((a, b)); t }, mmul(&t2, &dense4));
+                let (t23, s33) = (ref3(Op::T2([a, b])), ref3(Op::S3(*v)));
+                let site = format!("Mat3<{}>::translation_2d", $lay);
+                chk!(site, "Vec3", $L::Mat3::<X>::translation_2d(Vec3 { x: a, y: b, z: junk }), t23);
+                chk!(site, "Vec4", $L::Mat3::<X>::translation_2d(Vec4 { x: a, y: b, z: junk, w: junk }), t23);
+                chk!(site, "tuple", $L::Mat3::<X>::translation_2d((a, b)), t23);
+                chk!(site, "array", $L::Mat3::<X>::translation_2d([a, b]), t23);
+                chk!(site, "Extent2", $L::Mat3::<X>::translation_2d(Extent2 { w: a, h: b }), t23);
+                chk!(site, "scalar", $L::Mat3::<X>::translation_2d(c), ref3(Op::T2([c, c])));
+                let site = format!("Mat3<{}>::scaling_3d", $lay);
+                chk!(site, "Vec4", $L::Mat3::<X>::scaling_3d(Vec4 { x: a, y: b, z: c, w: junk }), s33);
+                chk!(site, "tuple", $L::Mat3::<X>::scaling_3d((a, b, c)), s33);
+                chk!(site, "array", $L::Mat3::<X>::scaling_3d([a, b, c]), s33);
+                chk!(site, "Extent3", $L::Mat3::<X>::scaling_3d(Extent3 { w: a, h: b, d: c }), s33);
+                chk!(site, "scalar", $L::Mat3::<X>::scaling_3d(a), ref3(Op::S3([a, a, a])));
+                let m3 = $b3(&dense3);
+                chk!(format!("Mat3<{}>::translated_2d", $lay), "Vec4", m3.translated_2d(Vec4 { x: a, y: b, z: junk, w: junk }), mmul(&t23, &dense3));
+                chk!(format!("Mat3<{}>::translate_2d", $lay), "array", { let mut t = m3; t.translate_2d([a, b]); t }, mmul(&t23, &dense3));
+                chk!(format!("Mat3<{}>::scaled_3d", $lay), "tuple", m3.scaled_3d((a, b, c)), mmul(&s33, &dense3));
+                chk!(format!("Mat3<{}>::scale_3d", $lay), "Extent3", { let mut t = m3; t.scale_3d(Extent3 { w: a, h: b, d: c }); t }, mmul(&s33, &dense3));
+                let s22 = ref2(Op::S2([a, b]));
+                let site = format!("Mat2<{}>::scaling_2d", $lay);
+                chk!(site, "Vec3", $L::Mat2::<X>::scaling_2d(Vec3 { x: a, y: b, z: junk }), s22);
+                chk!(site, "Vec4", $L::Mat2::<X>::scaling_2d(Vec4 { x: a, y: b, z: junk, w: junk }), s22);
+                chk!(site, "tuple", $L::Mat2::<X>::scaling_2d((a, b)), s22);
+                chk!(site, "array", $L::Mat2::<X>::scaling_2d([a, b]), s22);
+                chk!(site, "Extent2", $L::Mat2::<X>::scaling_2d(Extent2 { w: a, h: b }), s22);
+                chk!(site, "scalar", $L::Mat2::<X>::scaling_2d(c), ref2(Op::S2([c, c])));
+                let m2 = $b2(&dense2);
+                chk!(format!("Mat2<{}>::scaled_2d", $lay), "tuple", m2.scaled_2d((a, b)), mmul(&s22, &dense2));
+                chk!(format!("Mat2<{}>::scale_2d", $lay), "Vec3", { let mut t = m2; t.scale_2d(Vec3 { x: a, y: b, z: junk }); t }, mmul(&s22, &dense2));
+            }} }
+            lay!(rm, "row", r4, r3, r2); lay!(cm, "col", c4, c3, c2);
+        }
+        s.sample(json!({"call": "Mat4::translation_3d(Vec4 { 1, 2, 3, w: 9 })", "want": "the translation by (1,2,3); the fourth lane is ignored"}));
+    });
+
+    rep.section("long builder chains (deterministic strided walks through each alphabet)",
+        "the quantifier's long chains, enumerated instead of sampled: for each of the three alphabets of the BFS section (k = 11 / 8 / 7 calls) and every start offset r, the chain a[(r + i*d) mod k], i < L, with stride d in {1, k-1} and L = 10 (quick) / every stride coprime to k and L = 16 (thorough); each call goes through the same transition function as the BFS (returning form and in-place twin on both layouts, reference product, step-by-step application to the probe points in call order); non-trivial: all", true, false, |s| {
+        let len = if s.thorough() { 16 } else { 10 };
+        let inits = ChainModel { transitions: Arc::new(AtomicU64::new(0)), depth: 0 }.init_states();
+        let alph: [&[Step]; 3] = [&ACTS4, &ACTS3, &ACTS2];
+        let mut jobs: Vec<(usize, Vec<Step>)> = Vec::new();
+        for (ai, acts) in alph.iter().enumerate() {
+            let k = acts.len();
+            for d in 1..k {
+                if gcd_us(d, k) != 1 || (!s.thorough() && d != 1 && d != k - 1) { continue; }
+                for r in 0..k { jobs.push((ai, (0..len).map(|i| acts[(r + i * d) % k]).collect())); }
+            }
+        }
+        use rayon::prelude::*;
+        let done = AtomicU64::new(0);
+        jobs.par_iter().for_each(|(ai, chain)| {
+            let mut st = inits[*ai].clone();
+            for (i, a) in chain.iter().enumerate() {
+                s.eval(true);
+                match catch(|| step(&st, *a)) {
+                    Ok(nx) => st = nx,
+                    Err(Caught::Unmodelled(w)) => { s.unmodelled(w); return; }
+                    Err(Caught::Panic(m)) => { s.violation_w(&format!("{:?}", a), "panic", json!({"chain": jd(&chain[..=i].to_vec()), "panic": m}), i as u64); return; }
+                }
+                if let St::Bad { class, site, detail } = &st { s.violation_w(site, class, json!({"chain": jd(&chain[..=i].to_vec()), "what": detail}), i as u64 + 1); return; }
+            }
+            done.fetch_add(1, Relaxed);
+        });
+        s.meta("chains", json!({"length": len, "chains": jobs.len(), "completed_without_unmodelled_arithmetic": done.load(Relaxed)}));
+        if done.load(Relaxed) * 2 < jobs.len() as u64 { s.rep.machinery_error(format!("only {} of {} long chains stayed inside exact arithmetic", done.load(Relaxed), jobs.len())); }
+        s.sample(json!({"alphabet": "Mat4", "chain": format!("{:?}", jobs[0].1)}));
+    });
+
+    rep.section("Transform: wider alphabets (every rational axis, negative-w quaternions, zero / negative / huge / tiny scales), Default fields and float defaults",
+        "positions {0, (1,-2,3), (-1/2,1000,0)} x unit quaternions (cos h, axis sin h) for every 4th (quick) / every one (thorough) of the 103 rational unit axes x all 12 rational half-angles (incl. w < 0 and w = -1) x scales {(1,1,1), (-1,-1,-1), (0,0,0), (1/3,1/3,1/3), (0,1,1), (2,0,-1), (1,-3,1/2), (1000,1/1000,1), (-2,-2,3)}: the decoded matrix (both layouts) has last row (0,0,0,1) and maps 6 probe points (incl. negative and fractional) to position + R(orientation)(scale . p); where the known T*S*R order finding applies, every probe must still equal the T*S*R map exactly (same site|class as the first Transform section); Transform::default() has position 0, orientation (0,0,0,1), scale 1 field by field for <X,X,X>, <i32,f32,u8>, <f64,f64,f64> and converts to the exact identity in f32 and f64, both layouts; non-trivial: non-identity orientation", true, false, |s| {
+        s.require_classes(&["uniform-scale", "non-uniform-scale", "zero-scale-lane", "negative-scale-lane", "huge-or-tiny-scale", "negative-w-quaternion", "axis-aligned-rotation", "oblique-rotation"]);
+        let all = unit_axes();
+        let axes: Vec<[X; 3]> = if s.thorough() { all } else { all.into_iter().step_by(4).collect() };
+        let circ = circle_points();
+        let positions = [[qi(0), qi(0), qi(0)], [qi(1), qi(-2), qi(3)], [q(-1, 2), qi(1000), qi(0)]];
+        let scales = [[qi(1), qi(1), qi(1)], [qi(-1), qi(-1), qi(-1)], [qi(0), qi(0), qi(0)], [q(1, 3), q(1, 3), q(1, 3)], [qi(0), qi(1), qi(1)], [qi(2), qi(0), qi(-1)], [qi(1), qi(-3), q(1, 2)], [qi(1000), q(1, 1000), qi(1)], [qi(-2), qi(-2), qi(3)]];
+        let probes = [[qi(1), qi(0), qi(0)], [qi(0), qi(1), qi(0)], [qi(0), qi(0), qi(1)], [qi(1), qi(2), qi(3)], [qi(0), qi(0), qi(0)], [q(-1, 2), qi(7), qi(-4)]];
+        use rayon::prelude::*;
+        axes.par_iter().enumerate().for_each(|(ai, ax)| {
+            let mut cls: std::collections::BTreeMap<&'static str, u64> = Default::default();
+            for (ci, &(ch, sh)) in circ.iter().enumerate() {
+                let (c, sn) = (ch * ch - sh * sh, qi(2) * ch * sh);
+                let r3 = rodrigues(ax, c, sn);
+                let quat = Quaternion { x: ax[0] * sh, y: ax[1] * sh, z: ax[2] * sh, w: ch };
+                let axis_aligned = r3.iter().flatten().all(|e| *e == qi(0) || *e == qi(1) || *e == qi(-1));
+                for (pi, pos) in positions.iter().enumerate() { for sc in &scales {
+                    let uniform = sc[0] == sc[1] && sc[1] == sc[2];
+                    *cls.entry(if uniform { "uniform-scale" } else { "non-uniform-scale" }).or_insert(0) += 1;
+                    *cls.entry(if axis_aligned { "axis-aligned-rotation" } else { "oblique-rotation" }).or_insert(0) += 1;
+                    if sc.iter().any(|x| *x == qi(0)) { *cls.entry("zero-scale-lane").or_insert(0) += 1; }
+                    if sc.iter().any(|x| *x < qi(0)) { *cls.entry("negative-scale-lane").or_insert(0) += 1; }
+                    if sc.iter().any(|x| *x >= qi(1000)) { *cls.entry("huge-or-tiny-scale").or_insert(0) += 1; }
+                    if ch < qi(0) { *cls.entry("negative-w-quaternion").or_insert(0) += 1; }
+                    transform_case(s, pos, quat, &r3, sc, &probes, (ci as u64) * 10 + (pi as u64) * 5 + 1000 * (ai as u64).min(1), c != qi(1));
+                } }
+            }
+            for (k, v) in cls { s.class_n(k, v); }
+        });
+        // Default, field by field, for several element-type combinations; float conversions of the default are exactly the identity
+        s.eval(true);
+        let d = Transform::<X, X, X>::default();
+        if dv3(&d.position) != [qi(0); 3] || [d.orientation.x, d.orientation.y, d.orientation.z, d.orientation.w] != [qi(0), qi(0), qi(0), qi(1)] || dv3(&d.scale) != [qi(1); 3] { s.violation("Transform::<X,X,X>::default()", "fields-are-not-zero-position/identity-orientation/unit-scale", json!({"got": jd(&d)})); }
+        s.eval(true);
+        let d = Transform::<i32, f32, u8>::default();
+        if dv3(&d.position) != [0i32; 3] || [d.orientation.x, d.orientation.y, d.orientation.z, d.orientation.w] != [0f32, 0., 0., 1.] || dv3(&d.scale) != [1u8; 3] { s.violation("Transform::<i32,f32,u8>::default()", "fields-are-not-zero-position/identity-orientation/unit-scale", json!({"got": jd(&d)})); }
+        s.eval(true);
+        let d = Transform::<f64, f64, f64>::default();
+        if dv3(&d.position) != [0f64; 3] || [d.orientation.x, d.orientation.y, d.orientation.z, d.orientation.w] != [0f64, 0., 0., 1.] || dv3(&d.scale) != [1f64; 3] { s.violation("Transform::<f64,f64,f64>::default()", "fields-are-not-zero-position/identity-orientation/unit-scale", json!({"got": jd(&d)})); }
+        s.eval(true);
+        if rm::Mat4::<f64>::from(d).decode() != ident::<f64, 4>() || cm::Mat4::<f64>::from(d).decode() != ident::<f64, 4>() { s.violation("Mat4::<f64>::from(Transform::default())", "not-the-identity-map", json!({})); }
+        s.eval(true);
+        let d = Transform::<f32, f32, f32>::default();
+        if rm::Mat4::<f32>::from(d).decode() != ident::<f32, 4>() || cm::Mat4::<f32>::from(d).decode() != ident::<f32, 4>() { s.violation("Mat4::<f32>::from(Transform::default())", "not-the-identity-map", json!({})); }
+        s.sample(json!({"position": [0, 0, 0], "orientation": "(0,0,0,-1) (w = -1, the identity rotation)", "scale": [2, 0, -1], "want": "p -> (2 p.x, 0, -p.z)"}));
+    });
+
     std::process::exit(rep.finish_with(lk));
 }
